@@ -218,7 +218,14 @@ pub fn gen_plan(seed: u64, run: u64, cfg: Config, sys: &SysZones) -> Generated {
         menu.push(Some(abs));
         if r.chance(2, 3) {
             let d = r.usize(4);
-            let name = format!("Sim/Zone{}", k);
+            // names as the tz database has them: digits, '+', '-', '_', '.' and several levels
+            let name = match r.below(6) {
+                0 => format!("Sim/GMT+{}", k),
+                1 => format!("Sim/GMT-{}", k),
+                2 => format!("Sim/Zone.{}", k),
+                3 => format!("Sim/North_Dakota/New_Salem{}", k),
+                _ => format!("Sim/Zone{}", k),
+            };
             let p = format!("{}/{}", ZONEINFO_DIRS[d], name);
             files0.push((p.clone(), k));
             paths.push(p);
